@@ -18,17 +18,20 @@ from .. import syscheck as sc
 
 CLAUSES = {"LastCopy", "NoLoss", "NoInventedContent"}
 GAPS = ["I", "I1", "IS", "SI", "LSR", "RSL"]
+TAILS = ["LS4R", "RS4L"]      # tail-only schedules: several sync steps on one side's events before the other side's arrive
 RESOLVERS = [None, ["pick", 0, True], ["pick", 1, True], ["merge", False], ["raise"]]
 
 
 def plan(ctx):
     if ctx.tier == "quick":
         return dict(flavors=["oid/oid", "path/oidf"], resolvers=[None, ["pick", 0, True]],
-                    fams=[("conf2", "conf", 2, None, 900), ("mix2", "mix", 2, None, 500), ("conf4", "conf", 4, "sim", 500)],
+                    fams=[("conf2", "conf", 2, None, 900), ("mix2", "mix", 2, None, 500), ("conf4", "conf", 4, "sim", 500),
+                          ("conf3tail", "conf", 3, "tail", 2500)],
                     corrupt=300)
     return dict(flavors=["oid/oid", "path/oidf", "oidf/path", "path/path"], resolvers=RESOLVERS,
                 fams=[("conf2", "conf", 2, None, None), ("mix2", "mix", 2, None, None), ("conf3", "conf", 3, None, 8000),
-                      ("std2", "std", 2, None, None), ("conf5", "conf", 5, "sim", 4000)],
+                      ("std2", "std", 2, None, None), ("conf5", "conf", 5, "sim", 4000),
+                      ("conf3tail", "conf", 3, "tail", None), ("two3tail", "two", 3, "tail", 20000)],
                 corrupt=6000)
 
 
@@ -73,7 +76,7 @@ def run(ctx):
             cases = sc.generate(ctx, name, [1, 2], nops, GAPS, uni, simulate=(40, ctx.seed + 3))
             exhaustive = False
         else:
-            cases = sc.generate(ctx, name, [1, 2], nops, GAPS, uni)
+            cases = sc.generate(ctx, name, [1, 2], nops, TAILS if mode == "tail" else GAPS, uni)
             ctx.extra.setdefault("family_sizes", {})[name] = len(cases)
         cases, full = sc.slice_cases(cases, limit, ctx.seed * 32452843 + nops)
         exhaustive = exhaustive and full
